@@ -1,5 +1,5 @@
 (* StrictPolicy and UGCPolicy (as regenerated from policies.go / helpers.go) are in the class of the
-   round-trip theorem: no comments, no AllowUnsafe, no raw-text element allowed.  Non-vacuity of
+   round-trip theorem: no AllowUnsafe, no raw-text element allowed (and they keep no comments).  Non-vacuity of
    every theorem stated under plain_policy. *)
 From Coq Require Import List NArith Bool String.
 Import ListNotations.
@@ -17,16 +17,18 @@ Section PlainInst.
 
   Lemma strict_plain : plain_policy I strict.
   Proof.
-    destruct strict_nothing_allowed as (_ & _ & E3 & _).
-    split; [exact E3|]. split; [exact strict_safe|]. intros n _. apply strict_nothing.
+    split; [exact strict_safe|]. intros n _. apply strict_nothing.
   Qed.
 
   Lemma ugc_plain : plain_policy I ugc.
   Proof.
-    split; [exact ugc_no_comments|]. split; [exact ugc_safe|]. intros n Hn.
+    split; [exact ugc_safe|]. intros n Hn.
     unfold elem_allowed. rewrite ugc_no_patterns. cbn [existsb]. rewrite orb_false_r.
     unfold is_raw_name in Hn. apply existsb_exists in Hn as (x & Hx & E). apply beqb_eq in E. subst x.
     pose proof ugc_raw_not_allowed as T. rewrite forallb_forall in T. specialize (T n Hx).
     apply negb_true_iff in T. exact T.
   Qed.
+
+  Lemma strict_no_comments : allowComments strict = false.
+  Proof. destruct strict_nothing_allowed as (_ & _ & E3 & _). exact E3. Qed.
 End PlainInst.
